@@ -22,6 +22,16 @@ SCL, SDA = 'self.bus.scl_o', 'self.bus.sda_o'
 OPS = {'self.start': 'start', 'self.stop': 'stop', 'self.write': 'write', 'self.read': 'read'}
 
 
+def _level(atoms, sig):
+    """What a guard says about the 1-bit signal `sig`: True (high), False (low), None.  The extractor writes `sig == 1`
+    of a 1-bit signal as the literal `sig` (and `sig == 0` as its negation); the comparison spellings are accepted too."""
+    for key, high in ((sig, True), ('1 == ' + sig, True), ('0 == ' + sig, False)):
+        v = atoms.get(key)
+        if v is not None:
+            return v == high
+    return None
+
+
 def typestate(ctx, ir, fsm):
     """Returns {state: set((op, scl_level, sda_level))} -- levels of the driven SCL / SDA on entry / while in the state.
     sda_level is '0', '1' or '?' (data dependent)."""
@@ -62,9 +72,9 @@ def typestate(ctx, ir, fsm):
                 ea = dict(guard_atoms(e.guard))
                 for (o, l0, d0) in list(val[s]):
                     lv_e = levels_in(s, {(o, l0, d0)})
-                    if ea.get('1 == ' + SCL) is True:
+                    if _level(ea, SCL) is True:
                         lv_e &= {'H'}
-                    if ea.get('1 == ' + SCL) is False or ea.get('0 == ' + SCL) is True:
+                    if _level(ea, SCL) is False:
                         lv_e &= {'L'}
                     for a in scl_assigns.get(s, []):
                         if q.atoms(a) <= q.atoms(e):
@@ -106,7 +116,7 @@ def check(ctx, stretch):
         n += 1
         lv = levels_in(s, val[s])
         ga = dict(q.atoms(a))
-        if ga.get('1 == ' + SCL) is True:
+        if _level(ga, SCL) is True:
             lv &= {'H'}
         ops = {o for o, _, _ in val[s]}
         prior = {d for _, _, d in val[s]}
@@ -172,7 +182,7 @@ def check(ctx, stretch):
     for sig in ('self.ack_o', 'r_shreg', 'self.data_o'):
         for a in ir.drivers(sig, exact=True):
             ga = dict(q.atoms(a))
-            need = ga.get('1 == ' + SCL) is True and (not stretch or ga.get('1 == self.bus.scl_i') is True)
+            need = _level(ga, SCL) is True and (not stretch or _level(ga, 'self.bus.scl_i') is True)
             ctx.ob('C52.sample-scl-high', 'I2CInitiator.%s[%s]' % (sig, tag), need, a.loc,
                    '%s must be captured while SCL is high (and, with clock stretching, actually high on the bus): %s' % (sig, q.fmt(a)))
     ack = [a for a in ir.drivers('self.ack_o', exact=True)]
